@@ -506,3 +506,48 @@ def probe_logging():
     lg.propagate = False
     lg.setLevel(logging.DEBUG)
     return h
+
+
+def render_source(spec: dict) -> str:
+    """human-readable rendering of a program spec as the declarations a user would write (for replay files)"""
+    out = ['# rendering of the generated program (bodies are pure functions of their kwargs + the fault plan)']
+    for n in spec['nodes']:
+        base = 'RecurrentProcessor' if n.get('rec') else 'ProcessorBase'
+        params = []
+        for kw, m in n.get('params', ()):
+            if m[0] == 'In':
+                params.append(f'{kw}: Input({m[1]})')
+            elif m[0] == 'Switch':
+                cases = ', '.join(f'({lab!r}, {c})' for lab, c in m[3])
+                params.append(f'{kw}: SwitchCase(switch={m[2]}, cases=[{cases}], name={m[1]!r})')
+            elif m[0] == 'OneOf':
+                params.append(f'{kw}: InputOneOf([{", ".join(m[1])}])')
+            elif m[0] == 'Rec':
+                params.append(f'{kw}: RecurrentSubGraph(start_node={m[1]}, dest_node={m[2]}, max_iterations={m[3]})')
+        if n['name'] == spec['input']:
+            params.append('**input_kwargs')
+        if n.get('add_data'):
+            params.append('additional_data=None')
+        mode = n.get('mode', 'inline')
+        tags = {'inline': 'tags = (NodeTag.non_async,)', 'process': 'tags = (NodeTag.process,)'}.get(mode, '')
+        out.append(f'class {n["name"]}({base}):')
+        if tags:
+            out.append(f'    {tags}')
+        r = n.get('retry')
+        if r:
+            out.append(f'    attempts, delay, exceptions, use_default = {r.get("attempts")}, {r.get("delay")}, '
+                       f'{r.get("exceptions")}, {bool(r.get("use_default"))}')
+        notes = []
+        if n.get('plan'):
+            notes.append(f'per-attempt outcomes {n["plan"]} then ok')
+        if n.get('gates'):
+            notes.append(f'{n["gates"]} suspension point(s)')
+        if n.get('value') not in (None, 'prov'):
+            notes.append(f'returns {n["value"]}')
+        if n.get('rec'):
+            notes.append(f'asks for next_iteration while additional_data of {n["rec"]["start"]} < {n["rec"]["k"]}')
+        out.append(f'    {"async " if mode == "coro" else ""}def process(self, {", ".join(params)}):'
+                   + (f'  # {"; ".join(notes)}' if notes else ''))
+        out.append('        ...')
+    out.append(f'chart = PipelineChart("m", build_dag(input_node={spec["input"]}, output_node={spec["output"]}))')
+    return '\n'.join(out)
